@@ -581,11 +581,13 @@ class ApplicationJobs:
                 # NOTE: this is done BEFORE the forced state is sent because the event will come back immediately
                 #       in the on_event method below
                 self.current_jobs.remove(command)
+                # a timeout is a failure like the others (e.g. apply the starting failure strategy)
+                # NOTE: this is done BEFORE the forced state is sent because the event comes back immediately
+                #       and may end the application jobs, whereas the failure strategy has to be known at that time
+                self.process_failure(command.process)
                 # generate a process event for this process to inform all Supvisors instances
                 reason = f'process {getProcessStateDescription(expected_state)} event not received in time'
                 self.fail_command(command.process, command.identifier, event_time, reason)
-                # a timeout is a failure like the others (e.g. apply the starting failure strategy)
-                self.process_failure(command.process)
             if result == ProcessRequestResult.SUCCESS:
                 # NOTE: the result has been reached outside the scope of the sequencer
                 #       the job MUST be removed of the sequencer will block
